@@ -177,13 +177,15 @@ def from_jsonable(o):
 # ------------------------------------------------------------------------------------------------ unification
 class Position:
     """Type knowledge at one type position (options transparent)."""
-    __slots__ = ("has_float", "has_complex", "app_float", "app_complex", "item", "records", "tuples")
+    __slots__ = ("has_float", "has_complex", "app_float", "app_complex", "app_any", "item", "records", "tuples")
 
     def __init__(self):
         self.has_float = False      # a float arrived here through a builder call
         self.has_complex = False
         self.app_float = False      # ... only inside an element appended from another array
         self.app_complex = False
+        self.app_any = False        # an appended element brought a type here that its value does not show (an empty list,
+                                    # a None): the number type of everything at and below this position is undetermined
         self.item = None        # Position of list items
         self.records = {}       # name -> (field order list, {field: Position})
         self.tuples = {}        # arity -> [Position]
@@ -215,6 +217,9 @@ def absorb(P: Position, v, direct=True):
     """record that value v was appended at position P (recursively). direct=False: v is (part of) an element taken
     from another array by append/extend, whose number types merge with the builder's own only when the two
     layouts happen to be mergeable - so it only makes the number type at P undetermined."""
+    if v is None and not direct:
+        P.app_any = True
+        return
     if v is None or isinstance(v, (bool, str, bytes)):
         return
     if isinstance(v, tuple) and v and v[0] == "app":
@@ -234,20 +239,23 @@ def absorb(P: Position, v, direct=True):
         pass
     elif isinstance(v, list):
         item = P.list_item()
+        if not direct and not v:
+            item.app_any = True
         for x in v:
             absorb(item, x, direct)
     elif isinstance(v, tuple):
         if v[0] == "rec":
             for k, x in v[2]:
-                absorb(P.record_field(v[1], k), x)
+                absorb(P.record_field(v[1], k), x, direct)
         elif v[0] == "tup":
             slots = P.tuple_slots(len(v[1]))
             for s, x in zip(slots, v[1]):
-                absorb(s, x)
+                absorb(s, x, direct)
 
 
-def show(P: Position, v):
+def show(P: Position, v, lax_all=False):
     """the value as a snapshot must present it, given the type knowledge gathered so far."""
+    lax_all = lax_all or P.app_any
     if v is None or isinstance(v, (bool, str, bytes)):
         return v
     if isinstance(v, tuple) and v and v[0] == "app":
@@ -258,20 +266,20 @@ def show(P: Position, v):
             out = complex(v)
         elif P.has_float and isinstance(v, int):
             out = float(v)
-        if (P.app_complex and not isinstance(out, complex)) or (P.app_float and isinstance(out, int)):
+        if lax_all or (P.app_complex and not isinstance(out, complex)) or (P.app_float and isinstance(out, int)):
             return ("lax", out)
         return out
     if isinstance(v, list):
         item = P.list_item()
-        return [show(item, x) for x in v]
+        return [show(item, x, lax_all) for x in v]
     if isinstance(v, tuple):
         if v[0] == "rec":
             order, pos = P.record(v[1])
             have = dict(v[2])
-            return ("rec", v[1], [(k, show(pos[k], have[k]) if k in have else None) for k in order])
+            return ("rec", v[1], [(k, show(pos[k], have[k], lax_all) if k in have else None) for k in order])
         if v[0] == "tup":
             slots = P.tuple_slots(len(v[1]))
-            return ("tup", [show(s, x) for s, x in zip(slots, v[1])])
+            return ("tup", [show(s, x, lax_all) for s, x in zip(slots, v[1])])
         return v
     raise TypeError(type(v))
 
